@@ -312,7 +312,7 @@ func classifyErr(s string) string {
 		return "v-lastblockid"
 	case strings.Contains(s, "wrong Block.Header.AppHash"), strings.Contains(s, "wrong Block.Header.ConsensusHash"),
 		strings.Contains(s, "wrong Block.Header.LastResultsHash"), strings.Contains(s, "wrong Block.Header.ValidatorsHash"),
-		strings.Contains(s, "block time"), strings.Contains(s, "vidence"), strings.Contains(s, "don't have header"):
+		strings.Contains(s, "block time"), strings.Contains(s, "vidence"), strings.Contains(s, "don't have header"), strings.Contains(s, "was not a validator at height"):
 		return "v-flaw"
 	case strings.Contains(s, "initial block can't have LastCommit"):
 		return "v-initialcommit"
